@@ -17,7 +17,7 @@ import (
 func init() {
 	Register(&PropDef{
 		ID: "C05", QuickRuns: 1600, Level: "exploration",
-		Rule: "one run = more attach/detach cycles than the UE pool has addresses (/29 or /30) on the BESS datapath; each cycle: (re-)associate, establish a session with UP-allocated UE address and CHOOSE F-TEIDs, optionally accepted and rejected modifications and an establishment that is rejected after resources were taken, then one ending drawn from {Session Deletion, Association Release, peer silent past the read timeout, heartbeats unanswered, Session Report answered with 'session context not found'}; light datagram loss optional. Oracle after each ending (agent quiescent): no datapath entry carries the session's F-SEID; the pool has all addresses back and the next establishment succeeds; the TEIDs the session was given are no longer marked used; no session record is left; the pfcp_sessions gauge equals the number of live sessions. Non-trivial = at least two endings of different kinds; distinct = different sequence of (ending, pre-history kinds).",
+		Rule: "one run = more attach/detach cycles than the UE pool has addresses (/29 or /30) on the BESS datapath; each cycle: (re-)associate, establish a session with UP-allocated UE address and CHOOSE F-TEIDs, optionally accepted and rejected modifications and an establishment that is rejected after resources were taken, then one ending drawn from {Session Deletion, Association Release, peer silent past the read timeout, heartbeats unanswered, Session Report answered with 'session context not found'}; light datagram loss optional. Oracle after each ending (agent quiescent): no datapath entry carries the session's F-SEID; the pool has all addresses back and the next establishment succeeds; the TEIDs the session was given are no longer marked used; no session record is left; the pfcp_sessions gauge equals the number of live sessions. Non-trivial = at least two endings of different kinds; distinct = different sequence of (ending, pre-history kinds). Also: one RPC of an establishment slower than the plug-in waits (then: no datapath entry of a session that does not exist); on UP4 a Write failing inside the teardown of an association (what the agent holds is returned all the same).",
 		Assume: []string{"white-box reads (TEID used map, pool sizes, session records, gauge) go through a bridge file compiled into the scratch copy; they run at quiescence"},
 		Real: CommonReal, Simulated: CommonSim,
 		Scenario: scenarioC05,
